@@ -8,7 +8,8 @@ Spec:   `Got.Spec.Bytes` — ghost state `(W, r, c)`: `W` all bytes written sinc
         `W[c..]`, writes append to `W`, compaction only advances `r` up to `c`, Seek fails without change or moves `c`
         inside `[r, |W|]`, no outcome is a panic); `BufferRel` / `StreamRel` = `buf = W.drop r ∧ off = c - r`.
 Domain: `BufferOpValid` = non-negative Next/Grow sizes, int64 seek offsets.  The ErrTooLarge branch of `grow` is excluded
-        by the stated bound `3 * (bytes written + bytes requested by Grow) ≤ maxInt` (2^63-1).
+        by the stated bound `3 * (bytes written + bytes requested by Grow) ≤ maxAlloc` (2^48, the Go runtime's allocation
+        limit; beyond it `makeSlice` fails and `grow` panics with ErrTooLarge by design).
 -/
 import Got.Lemmas.BytesCorollaries
 open Got.Model.Bytes Got.Spec.Bytes Got.Lemmas.Bytes
@@ -18,7 +19,7 @@ open Got.Model.Bytes Got.Spec.Bytes Got.Lemmas.Bytes
     (`buf = W.drop r`, `off = c - r`, `r ≤ c ≤ |W|`).  Every prefix of an op sequence is an op sequence, so this
     covers every intermediate state as well. -/
 theorem C13_buffer_refines (ops : List Buffer.Op) (hv : ∀ op ∈ ops, BufferOpValid op)
-    (hsize : ((3 * bufferSizes ops : Nat) : Int) ≤ maxInt) :
+    (hsize : ((3 * bufferSizes ops : Nat) : Int) ≤ maxAlloc) :
     ∃ g', BufferSpecRun Ghost.init ops (Buffer.init.run ops).2 g' ∧ BufferRel (Buffer.init.run ops).1 g' := by
   obtain ⟨g', hrun, hsim, _⟩ := buffer_run_sim ops Buffer.init Ghost.init 0 sim_init hv (by simpa using hsize)
   exact ⟨g', hrun, hsim⟩
@@ -56,7 +57,7 @@ theorem C13_stream_unread (s : Stream) (g : Ghost) (h : StreamRel s g) :
 /-- After ANY op sequence of the domain `Bytes()` is the unread part of the write history of SOME abstract run that
     produced the same outputs (combination of the two theorems above, stated without an intermediate relation). -/
 theorem C13_buffer_bytes_after_run (ops : List Buffer.Op) (hv : ∀ op ∈ ops, BufferOpValid op)
-    (hsize : ((3 * bufferSizes ops : Nat) : Int) ≤ maxInt) :
+    (hsize : ((3 * bufferSizes ops : Nat) : Int) ≤ maxAlloc) :
     ∃ g', BufferSpecRun Ghost.init ops (Buffer.init.run ops).2 g' ∧
       (Buffer.init.run ops).1.bytes? = some (g'.W.drop g'.c) ∧ g'.r ≤ g'.c ∧ g'.c ≤ g'.W.length := by
   obtain ⟨g', hrun, hrel⟩ := C13_buffer_refines ops hv hsize
@@ -74,14 +75,14 @@ theorem C13_stream_bytes_after_run (ops : List Stream.Op) (hv : ∀ op ∈ ops, 
     (`n ≥ 0`) and `Tidy()` do not change `Bytes()` at all — whichever of reset-if-empty / reslice / small allocation /
     slide / reallocation the grow policy picks. -/
 theorem C13_buffer_compaction_invisible (b : Buffer) (hinv : BufferInv b) (p : List Byte) (n : Nat)
-    (hp : ((3 * (b.buf.length + p.length) : Nat) : Int) ≤ maxInt)
-    (hn : ((3 * (b.buf.length + n) : Nat) : Int) ≤ maxInt) :
+    (hp : ((3 * (b.buf.length + p.length) : Nat) : Int) ≤ maxAlloc)
+    (hn : ((3 * (b.buf.length + n) : Nat) : Int) ≤ maxAlloc) :
     (b.write p).1.bytes = b.bytes ++ p ∧ (b.write p).2 = .wrote p.length ∧
     (b.growOp n).1.bytes = b.bytes ∧ (b.growOp n).2 = .unit ∧ n ≤ (b.growOp n).1.cap - (b.growOp n).1.buf.length ∧
     b.tidy.bytes = b.bytes := by
-  obtain ⟨b1, k1, hw, hk1, hoff1, hbuf1, _, _⟩ := write_char b p hinv (by rw [maxInt_eq] at *; omega)
+  obtain ⟨b1, k1, hw, hk1, hoff1, hbuf1, _, _⟩ := write_char b p hinv (by simp only [maxAlloc_eq] at *; omega)
   obtain ⟨b2, k2, hg, hk2, hoff2, hbuf2, _, hroom⟩ :=
-    growOp_char b n (by omega) hinv (by rw [maxInt_eq] at *; simp only [Int.toNat_natCast]; omega)
+    growOp_char b n (by omega) hinv (by simp only [maxAlloc_eq, Int.toNat_natCast] at *; omega)
   simp only [Int.toNat_natCast] at hroom
   refine ⟨?_, by rw [hw], ?_, by rw [hg], by rw [hg]; exact hroom, ?_⟩
   · rw [hw]; simp only [Buffer.bytes, hbuf1, hoff1]
@@ -102,7 +103,7 @@ example : BufferInv (Buffer.init.run [.write [1, 2, 3], .read 2]).1 := by decide
     contents untouched, and `Bytes()` afterwards is `W[c'..]` — the bytes originally written there.  It succeeds exactly
     when whence ∈ {0,1,2} and the designated target lies in `[0, |W| - r]` (`Ghost.seekOk`). -/
 theorem C13_buffer_seek (b : Buffer) (g : Ghost) (o w : Int) (ho : -(2 ^ 63 : Int) ≤ o ∧ o < 2 ^ 63)
-    (hinv : BufferInv b) (hrel : BufferRel b g) (hlen : ((3 * b.buf.length : Nat) : Int) ≤ maxInt) :
+    (hinv : BufferInv b) (hrel : BufferRel b g) (hlen : ((3 * b.buf.length : Nat) : Int) ≤ maxAlloc) :
     (¬ g.seekOk o w ∧ b.seek o w = (b, .seek 0 .invalidSeek)) ∨
     (g.seekOk o w ∧ ∃ c', g.r ≤ c' ∧ c' ≤ g.W.length ∧ (c' : Int) = g.r + g.seekTarget o w ∧
       (b.seek o w).2 = .seek (c' - g.r) .nil ∧ (b.seek o w).1.buf = b.buf ∧ (b.seek o w).1.cap = b.cap ∧
@@ -177,7 +178,7 @@ theorem C13_stream_seek (s : Stream) (g : Ghost) (o w : Int) (ho : -(2 ^ 63 : In
     Next/Tidy/grow are never out of range — and afterwards the cursor is inside the data: `off ≤ len`, so `Bytes()` and
     `String()` do not panic either. -/
 theorem C13_buffer_no_panic (ops : List Buffer.Op) (hv : ∀ op ∈ ops, BufferOpValid op)
-    (hsize : ((3 * bufferSizes ops : Nat) : Int) ≤ maxInt) :
+    (hsize : ((3 * bufferSizes ops : Nat) : Int) ≤ maxAlloc) :
     (∀ out ∈ (Buffer.init.run ops).2, ∀ why, out ≠ .panic why) ∧
     (Buffer.init.run ops).1.off ≤ (Buffer.init.run ops).1.buf.length ∧
     (Buffer.init.run ops).1.bytes? ≠ none ∧ (Buffer.init.run ops).1.string? ≠ none := by
@@ -209,7 +210,7 @@ example : (Buffer.init.run [.grow (-1)]).2 = [.panic "bytes.Buffer.Grow: negativ
     `buf == nil ⇔ cap(buf) = 0`; Go guarantees `len ≤ cap` for every slice, the model has to maintain it itself.
     `Cap()` is part of every compared observation, which ties the grow policy of the model to the code. -/
 theorem C13_buffer_invariant (ops : List Buffer.Op) (hv : ∀ op ∈ ops, BufferOpValid op)
-    (hsize : ((3 * bufferSizes ops : Nat) : Int) ≤ maxInt) :
+    (hsize : ((3 * bufferSizes ops : Nat) : Int) ≤ maxAlloc) :
     let b := (Buffer.init.run ops).1
     b.off ≤ b.buf.length ∧ b.buf.length ≤ b.cap ∧ (b.isNil = true ↔ b.cap = 0) ∧ b.buf.length ≤ bufferSizes ops := by
   obtain ⟨g', _, _, hinv, hS⟩ := buffer_run_sim ops Buffer.init Ghost.init 0 sim_init hv (by simpa using hsize)
@@ -219,7 +220,7 @@ theorem C13_buffer_invariant (ops : List Buffer.Op) (hv : ∀ op ∈ ops, Buffer
     order, followed by what `Bytes()` returns at the end, are exactly the bytes passed to all Write calls, in order —
     no byte is lost, duplicated or reordered by Tidy or by any branch of the grow policy. -/
 theorem C13_buffer_fifo (ops : List Buffer.Op) (hv : ∀ op ∈ ops, BufferOpValid op)
-    (hfree : ∀ op ∈ ops, BufSeekFree op) (hsize : ((3 * bufferSizes ops : Nat) : Int) ≤ maxInt) :
+    (hfree : ∀ op ∈ ops, BufSeekFree op) (hsize : ((3 * bufferSizes ops : Nat) : Int) ≤ maxAlloc) :
     bufReads (Buffer.init.run ops).2 ++ (Buffer.init.run ops).1.bytes = bufWrites ops := by
   obtain ⟨g', hrun, hrel⟩ := C13_buffer_refines ops hv hsize
   obtain ⟨hW, hT, _⟩ := buffer_fifo_gen ops Ghost.init g' _ ⟨Nat.le_refl _, Nat.le_refl _⟩ hfree hrun
